@@ -5,6 +5,7 @@ From MD Require Generated.Consts.
 From MD Require Import Regex.Syntax Generated.Regexes Proofs.Shapes1 Proofs.Shapes2.
 From MD Require Import Regex.LocalityProofs Proofs.RoundTrip.
 From MD Require Import Proofs.RoundTrip2 Proofs.RoundTrip4.
+From MD Require Import Proofs.RoundTrip7.
 
 (* RFC 4648: decode (encode p) = p for every payload (all lengths mod 3) *)
 Theorem C13_b64_roundtrip : forall p : bytes, wf_bytes p -> b64_decode_strict (b64_encode p) = Some p.
@@ -209,6 +210,11 @@ Print Assumptions C13_base64_min_length.
 Theorem C13_base64_wrapped_roundtrip : forall (pre : list N) (p : bytes) (ls : list (list N * list N)) (lm pad : list N) (suf : bytes), wf_bytes p -> lines_ok ls -> forallb is_b64_char lm = true -> pad_ok pad -> b64_encode p = concat (map fst ls) ++ lm ++ pad -> (4 * (5 - Datatypes.length ls) + 2 <= Datatypes.length lm)%nat -> b64_acceptable (b64_encode p) = true -> b64_stop suf = true -> let form := wtext ls lm ++ pad in (Datatypes.length form + 100 <= Backtrack.default_fuel)%nat -> neutral RE_base64_BASE64_RE pre = true -> let data := pre ++ form ++ suf in find_base64 data = Hang \/ (exists rest : list node, find_base64 data = Ok (Node [] p ENC_B64 (blen pre) (blen pre + blen form) [] :: rest) /\ Forall (fun nd : node => blen pre + blen form <= n_st nd) rest).
 Proof. exact find_base64_roundtrip_wrapped. Qed.
 Print Assumptions C13_base64_wrapped_roundtrip.
+
+(* a comma-separated array of >= 501 decimal / 0xHH elements (no xor key in the text): one powershell.bytes node, the bytes, exact span *)
+Theorem C13_powershell_bytes_roundtrip : forall (xortool : bytes -> list bytes) (pre : list N) (els : list (ps_el * bytes)) (last : ps_el) (suf : bytes), ps_els_ok els -> el_ok last = true -> (500 <= Datatypes.length els)%nat -> ps_stop suf = true -> (2 * Datatypes.length (psb_text els last) + 100 <= Backtrack.default_fuel)%nat -> neutral RE_powershell_POWERSHELL_BYTES_RE pre = true -> neutral RE_xor_helper_XOR_RE pre = true -> neutral RE_xor_helper_XOR_RE suf = true -> let form := psb_text els last in let data := pre ++ form ++ suf in find_powershell_bytes xortool data = Hang \/ (exists rest : list node, find_powershell_bytes xortool data = Ok (Node (s2b "powershell.bytes") (ps_values els last) [] (blen pre) (blen pre + blen form) [] :: rest) /\ Forall (fun nd : node => blen pre + blen form <= n_st nd) rest).
+Proof. exact find_powershell_bytes_roundtrip. Qed.
+Print Assumptions C13_powershell_bytes_roundtrip.
 
 Theorem C13_min_chars_tied : MIN_B64_CHARS = Generated.Consts.G_MIN_B64_CHARS.
 Proof. reflexivity. Qed.
